@@ -195,6 +195,14 @@ template <typename FSM> void Explorer<FSM>::liveChecks(Runner& r, Exec& x) {
 				if (e.meth == E_REQUEST) { ++nreq; rq = (int) i; }
 				if (e.meth == E_CANCEL || e.meth == E_SUCCEED || e.meth == E_FAIL || e.meth == M_PLAN_SUCCEEDED || e.meth == M_PLAN_FAILED || e.meth == E_PLAN_APPEND) cancelled = true;
 			}
+			if (nreq == 1 && !cancelled && !initialStep && pt.count() == 0 && x.activatedBefore && x.trace[rq].a != T_SCHEDULE && x.trace[rq].a != T_UTILIZE && x.trace[rq].a != T_RANDOMIZE) {
+				// the request was applied (something was entered because of it) but its transition - and the payload with it - was not recorded
+				bool enteredNew = false;
+				for (size_t i = (size_t) rq; i < x.stepEnd; ++i) if (x.trace[i].meth == M_ENTER && x.trace[i].layer == 0 && !(x.before.active.size() && x.before.active[x.trace[i].state])) enteredNew = true;
+				if (enteredNew && (int) FSM::Instance::TransitionSets::CAPACITY >= 1)
+					violation("C14", "payload/transition-not-recorded", "the single request " + std::string(KIND_NAMES[x.trace[rq].a]) + "(" + str(x.trace[rq].b) + ")" + (x.trace[rq].c >= 0 ? " carrying payload tag " + str(x.trace[rq].c) : std::string("")) +
+							  " activated states, yet previousTransitions() is empty: no state can read the transition or its payload afterwards", x);
+			}
 			if (nreq == 1 && !cancelled && !initialStep && pt.count() == 1 && x.activatedBefore) {
 				const TraceEv& q = x.trace[rq];
 				const int k = q.a;
